@@ -78,7 +78,7 @@ type pipeOpt struct {
 	hsPayload []byte
 	noHS      bool // the remote never sends a protocol handshake
 	msgs      []wire
-	raw       [][]byte // raw bytes sent after the protocol handshake instead of msgs
+	raw       [][]byte                  // raw bytes sent after the protocol handshake instead of msgs
 	rawK      func(key []byte) [][]byte // ... that need the session key
 	// incomplete: the raw bytes end inside a frame; the remote then stays silent until the node's read
 	// deadline passes (modelled: the deadline fires once the node waits for bytes that do not come)
@@ -306,7 +306,9 @@ func pipeFamilies(w *world) []*Family {
 		return Case{Name: name, Run: func(m *meter) string { return playPipe(m, opt) }}
 	}
 	add("valid", 20, func(th bool, emit func(func() Case)) {
-		emit(func() Case { return pipe("pipe/valid/handshake-then-status-request", pipeOpt{hsCode: 0x02, hsPayload: hs.payload}) })
+		emit(func() Case {
+			return pipe("pipe/valid/handshake-then-status-request", pipeOpt{hsCode: 0x02, hsPayload: hs.payload})
+		})
 	})
 	add("no-handshake", 2000, func(th bool, emit func(func() Case)) {
 		emit(func() Case { return pipe("pipe/no-handshake/silent", pipeOpt{noHS: true}) })
@@ -314,11 +316,15 @@ func pipeFamilies(w *world) []*Family {
 	add("handshake-code", 20, func(th bool, emit func(func() Case)) {
 		// the first message of every code, with the handshake payload and with its own sample
 		for code := uint32(0); code <= 0x1f; code++ {
-			emit(func() Case { return pipe(fmt.Sprintf("pipe/handshake-code/%02x/handshake-payload", code), pipeOpt{hsCode: code, hsPayload: hs.payload}) })
+			emit(func() Case {
+				return pipe(fmt.Sprintf("pipe/handshake-code/%02x/handshake-payload", code), pipeOpt{hsCode: code, hsPayload: hs.payload})
+			})
 			emit(func() Case { return pipe(fmt.Sprintf("pipe/handshake-code/%02x/empty", code), pipeOpt{hsCode: code}) })
 		}
 		for _, s := range w.samples()[1:] {
-			emit(func() Case { return pipe(fmt.Sprintf("pipe/handshake-code/%02x/sample=%s", s.code, s.name), pipeOpt{hsCode: s.code, hsPayload: s.payload}) })
+			emit(func() Case {
+				return pipe(fmt.Sprintf("pipe/handshake-code/%02x/sample=%s", s.code, s.name), pipeOpt{hsCode: s.code, hsPayload: s.payload})
+			})
 		}
 	})
 	add("handshake-absurd", 20, func(th bool, emit func(func() Case)) {
@@ -338,7 +344,9 @@ func pipeFamilies(w *world) []*Family {
 							return
 						}
 						p := &network.ProtocolHandshake{ChainID: 200, GenesisHash: w.hash("g"), NodeVersion: 1, LatestStatus: network.LatestStatus{CurHeight: ch, CurHash: hv(chn), StaHeight: sh, StaHash: hv(shn)}}
-						emit(func() Case { return pipe(fmt.Sprintf("pipe/handshake-absurd/cur=%d:%s/sta=%d:%s", ch, chn, sh, shn), pipeOpt{hsCode: 0x02, hsPayload: enc(p)}) })
+						emit(func() Case {
+							return pipe(fmt.Sprintf("pipe/handshake-absurd/cur=%d:%s/sta=%d:%s", ch, chn, sh, shn), pipeOpt{hsCode: 0x02, hsPayload: enc(p)})
+						})
 					}
 				}
 			}
@@ -361,7 +369,9 @@ func pipeFamilies(w *world) []*Family {
 			if !th && cut%5 != 0 {
 				continue
 			}
-			emit(func() Case { return pipe(fmt.Sprintf("pipe/handshake-trunc/cut=%03d", cut), pipeOpt{hsCode: 0x02, hsPayload: hs.payload[:cut]}) })
+			emit(func() Case {
+				return pipe(fmt.Sprintf("pipe/handshake-trunc/cut=%03d", cut), pipeOpt{hsCode: 0x02, hsPayload: hs.payload[:cut]})
+			})
 		}
 	})
 	add("handshake-rlp", 20, func(th bool, emit func(func() Case)) {
@@ -378,17 +388,25 @@ func pipeFamilies(w *world) []*Family {
 				if !th && pos%3 != 0 {
 					continue
 				}
-				emit(func() Case { return pipe(fmt.Sprintf("pipe/handshake-mut/pos=%03d/val=%02x", pos, v), pipeOpt{hsCode: 0x02, hsPayload: withByte(hs.payload, pos, v)}) })
+				emit(func() Case {
+					return pipe(fmt.Sprintf("pipe/handshake-mut/pos=%03d/val=%02x", pos, v), pipeOpt{hsCode: 0x02, hsPayload: withByte(hs.payload, pos, v)})
+				})
 			}
 		}
 	})
 	add("after-handshake", 25, func(th bool, emit func(func() Case)) {
 		for _, s := range w.samples()[1:] {
-			emit(func() Case { return pipe("pipe/after-handshake/sample="+s.name, pipeOpt{hsCode: 0x02, hsPayload: hs.payload, msgs: []wire{{s.code, s.payload}}}) })
-			emit(func() Case { return pipe("pipe/after-handshake/truncated="+s.name, pipeOpt{hsCode: 0x02, hsPayload: hs.payload, msgs: []wire{{s.code, s.payload[:len(s.payload)/2]}}}) })
+			emit(func() Case {
+				return pipe("pipe/after-handshake/sample="+s.name, pipeOpt{hsCode: 0x02, hsPayload: hs.payload, msgs: []wire{{s.code, s.payload}}})
+			})
+			emit(func() Case {
+				return pipe("pipe/after-handshake/truncated="+s.name, pipeOpt{hsCode: 0x02, hsPayload: hs.payload, msgs: []wire{{s.code, s.payload[:len(s.payload)/2]}}})
+			})
 		}
 		for code := uint32(0); code <= 0x21; code++ {
-			emit(func() Case { return pipe(fmt.Sprintf("pipe/after-handshake/code=%02x/empty", code), pipeOpt{hsCode: 0x02, hsPayload: hs.payload, msgs: []wire{{code, nil}}}) })
+			emit(func() Case {
+				return pipe(fmt.Sprintf("pipe/after-handshake/code=%02x/empty", code), pipeOpt{hsCode: 0x02, hsPayload: hs.payload, msgs: []wire{{code, nil}}})
+			})
 		}
 		// raw garbage after the protocol handshake
 		raws := map[string][]byte{
@@ -401,14 +419,18 @@ func pipeFamilies(w *world) []*Family {
 			"junk":               bytes.Repeat([]byte{0x5a}, 1000),
 		}
 		for _, n := range []string{"7-byte-frame", "zero-length-frame", "bad-magic", "too-long", "max-declared-empty", "16-zero-bytes", "junk"} {
-			emit(func() Case { return pipe("pipe/after-handshake/raw="+n, pipeOpt{hsCode: 0x02, hsPayload: hs.payload, raw: [][]byte{raws[n]}, incomplete: n == "max-declared-empty"}) })
+			emit(func() Case {
+				return pipe("pipe/after-handshake/raw="+n, pipeOpt{hsCode: 0x02, hsPayload: hs.payload, raw: [][]byte{raws[n]}, incomplete: n == "max-declared-empty"})
+			})
 		}
 		// frames with a plaintext shorter than the code, under the real session key
 		for l := 0; l < 4; l++ {
 			l := l
-			emit(func() Case { return pipe(fmt.Sprintf("pipe/after-handshake/short-plaintext=%d", l), pipeOpt{hsCode: 0x02, hsPayload: hs.payload, rawK: func(key []byte) [][]byte {
-				return [][]byte{framePlain(key, make([]byte, l))}
-			}}) })
+			emit(func() Case {
+				return pipe(fmt.Sprintf("pipe/after-handshake/short-plaintext=%d", l), pipeOpt{hsCode: 0x02, hsPayload: hs.payload, rawK: func(key []byte) [][]byte {
+					return [][]byte{framePlain(key, make([]byte, l))}
+				}})
+			})
 		}
 	})
 	add("write-fault", 1500, func(th bool, emit func(func() Case)) {
